@@ -42,21 +42,22 @@ Proof.
   open_s s. destruct k as [kt kd kre]. intros H E. cbn in E. subst inst. unfold install. cbn.
   destruct (c_reg_ok o || kt || kd && negb kre); cbn; destruct kt, w, ar, nd, kr, kd; cbn; sfin.
 Qed.
-Lemma Sinv_event k s a b : Sinv k s -> kreg s = true -> Sinv k (with_du (with_pending s true) (du_wlh s) a (du_nd s) (kreg s) b).
+Lemma Sinv_evdu k s a b : Sinv k s -> kreg s = true -> Sinv k (with_du s (du_wlh s) a (du_nd s) (kreg s) b).
 Proof. open_s s. intros H E. cbn in E. subst kr. destruct w, ar, nd, a; sfin. Qed.
 Lemma Sinv_hangup k s : Sinv k s -> kreg s = true -> k_timer k = false ->
-  Sinv k (with_du (with_pending s true) (du_wlh s) false true (kreg s) false).
+  Sinv k (with_du s (du_wlh s) false true (kreg s) false).
 Proof. open_s s. intros H E Et. cbn in E. subst kr. destruct w, ar, nd; sfin. Qed.
 
-Lemma event_src_facts k stay s : Sinv k s -> kreg s = true ->
-  let s1 := event_src k stay s in
-  registered s1 = true /\ Sinv k s1 /\ fl s1 = fl s /\ h_ca s1 = h_ca s /\ installed s1 = installed s.
+Lemma event_du_facts k stay s : Sinv k s -> kreg s = true ->
+  let s1 := event_du k stay s in
+  registered s1 = true /\ Sinv k s1 /\ fl s1 = fl s /\ h_ca s1 = h_ca s /\ installed s1 = installed s /\ registered s = true.
 Proof.
-  intros HS Kr. pose proof HS as (_ & S2 & _). pose proof (S2 Kr) as W. unfold event_src.
+  intros HS Kr. pose proof HS as (_ & S2 & _). pose proof (S2 Kr) as W. unfold event_du.
+  assert (R : registered s = true) by (unfold registered; rewrite W; reflexivity).
   destruct (k_rearm k); [|destruct (k_timer k)]; cbv zeta.
-  - split; [unfold registered; cbn; rewrite W; reflexivity|]. split; [apply Sinv_event; assumption|]. repeat split.
-  - split; [unfold registered; cbn; rewrite W; reflexivity|]. split; [apply Sinv_event; assumption|]. repeat split.
-  - split; [unfold registered; cbn; rewrite W; reflexivity|]. split; [apply Sinv_pending; assumption|]. repeat split.
+  - split; [unfold registered; cbn; rewrite W; reflexivity|]. split; [apply Sinv_evdu; assumption|]. repeat split. exact R.
+  - split; [unfold registered; cbn; rewrite W; reflexivity|]. split; [apply Sinv_evdu; assumption|]. repeat split. exact R.
+  - split; [exact R|]. split; [exact HS|]. repeat split. exact R.
 Qed.
 
 Lemma activate_src_cases k o s :
@@ -108,7 +109,7 @@ Definition BInv (g : gst) : Prop :=
   (h_ca s = false -> ch_set g = true -> ch_count g = 1 \/ ch_disposed g = true) /\
   (ch_set g = false -> h_ca s = false /\ ch_count g = 0) /\
   (1 <= ch_count g -> canceled f = true /\ deleted f = true) /\
-  (ch_disposed g = true -> released f = true).
+  (ch_disposed g = true -> released f = true /\ canceled f = false).
 
 (* event handler invocations that start after CANCELED was set *)
 Definition CInv (g : gst) : Prop :=
@@ -258,8 +259,8 @@ Section PhaseStep.
         * assert (1 <= ch_count g) by lia. destruct (HB5 H) as [X1 X2]. split; [rewrite F2c; exact X1 | apply F2d; exact X2].
         * split; [rewrite F2c; exact Hcan|]. apply F2d.
           destruct Hwhere as [(_ & _ & Dd)|(_ & Dd)]; [apply HD2; exact Dd | exact Dd].
-      + intros Hd. rewrite F2r. apply orb_true_iff in Hd as [Hd|Hd]; [apply HB6; exact Hd|].
-        apply Z.ltb_lt in Hd. destruct F8 as [Z0|(Z1 & _ & _ & Hnc)]; [lia|].
+      + intros Hd. rewrite F2r, F2c. apply orb_true_iff in Hd as [Hd|Hd]; [apply HB6; exact Hd|].
+        apply Z.ltb_lt in Hd. destruct F8 as [Z0|(Z1 & _ & _ & Hnc)]; [lia|]. split; [|exact Hnc].
         destruct (K9 Z1) as [(_ & Hcr)|Hcd].
         * unfold canc_or_rel in Hcr. apply orb_true_iff in Hcr as [Hcr|Hcr]; [rewrite (HD1 Hcr) in Hnc; discriminate | apply HD3; exact Hcr].
         * assert (X : in_cd (o_pc g) = true) by (rewrite Hcd; reflexivity). destruct (HA7 X) as [_ X2]. congruence.
@@ -343,9 +344,10 @@ Lemma G_src_nil g s1 og :
   (waiter (fl s1) = true -> canceled (fl s1) = true) ->
   (1 <= late_starts g -> og = Some CxThread) ->
   (o_pc g = OLatch -> canceled (fl s1) = true -> og = Some CxThread) ->
+  (ch_disposed g = true -> canceled (fl s1) = false) ->
   GInv (set_origin (set_src g s1 []) og).
 Proof.
-  intros (HA & HB & HC & HD & HE) S1 Ei Eh Ed Mc Mr Wc R1 R2.
+  intros (HA & HB & HC & HD & HE) S1 Ei Eh Ed Mc Mr Wc R1 R2 Dc.
   destruct HA as (HA1 & HA2 & HA3 & HA4 & HA5 & HA6 & HA7).
   destruct HB as (HB1 & HB2 & HB3 & HB4 & HB5 & HB6).
   destruct HC as (HC1 & HC2 & HC3).
@@ -357,7 +359,7 @@ Proof.
     intros X. destruct (HA7 X). auto.
   - split; [exact HB1|]. split; [exact HB2|]. split; [exact HB3|]. split; [exact HB4|]. split.
     + intros X. destruct (HB5 X). auto.
-    + intros X. auto.
+    + intros X. destruct (HB6 X). auto.
   - split; [exact HC1|]. split.
     + intros X. destruct (HC2 X). auto.
     + intros X. destruct (HC3 X) as (Y1 & Y2 & Y3 & Y4). auto.
@@ -474,6 +476,7 @@ Proof.
   - rewrite Ew, Ec. apply HA.
   - intros X. destruct HC as (_ & HC2 & _). destruct (HC2 X). assumption.
   - rewrite Ec. intros X Y. destruct HC as (_ & _ & HC3). destruct (HC3 X) as (_ & _ & _ & Z1). auto.
+  - rewrite Ec. intros X. destruct HB as (_ & _ & _ & _ & _ & HB6). apply HB6. exact X.
 Qed.
 Lemma T_src_nil' g s1 u :
   TInv g u -> h_ca s1 = h_ca (g_s g) -> deleted (fl s1) = deleted (fl (g_s g)) ->
@@ -520,6 +523,7 @@ Proof.
       * destruct (owner g) eqn:Ow.
         -- rewrite Q in Al. discriminate.
         -- destruct HA4 as [X _]. rewrite (X eq_refl) in Pc. discriminate.
+    + intros X. destruct HG as (_ & (_ & _ & _ & _ & _ & HB6) & _). destruct (HB6 X) as [Y _]. congruence.
   - intros u. apply T_src_nil; cbn; auto.
 Qed.
 
@@ -537,18 +541,21 @@ Proof.
   split; [apply G_src_nil'; cbn; auto; apply Sinv_pending; exact HA1 | intros u; apply T_src_nil'; cbn; auto].
 Qed.
 
-Lemma step_event g t st g' acts : Inv g -> gstep g t (GEvent st) = Some (g', acts) -> Inv g'.
-Proof.
-  intros [HG HT] H. unfold gstep in H. destruct (kreg (g_s g) && karm (g_s g) && mgr_free g) eqn:E; [|discriminate].
-  apply andb_true_iff in E as [E _]. apply andb_true_iff in E as [Kr Ar].
-  pose proof HG as ((HA1 & _) & _).
-  destruct (event_src_facts (g_k g) st (g_s g) HA1 Kr) as (R & S1 & E1 & E2 & E3). cbv zeta in H.
-  rewrite R in H. cbn [negb andb] in H. injection H as <- <-.
-  split; [apply G_src_nil'; auto; rewrite E1; auto | intros u; apply T_src_nil'; auto; rewrite E1; auto].
-Qed.
-
 Lemma GInv_hup g b : GInv (set_hup g b) <-> GInv g.
 Proof. unfold GInv, AInv, BInv, CInv, DInv. cbn. tauto. Qed.
+
+Lemma step_event g t st g' acts : Inv g -> gstep g t (GEvent st) = Some (g', acts) -> Inv g'.
+Proof.
+  intros [HG HT] H. unfold gstep in H.
+  destruct (kreg (g_s g) && karm (g_s g) && negb (k_direct (g_k g)) && mgr_free g) eqn:E; [|discriminate].
+  apply andb_true_iff in E as [E _]. apply andb_true_iff in E as [E _]. apply andb_true_iff in E as [Kr _]. injection H as <- <-.
+  pose proof HG as ((HA1 & _) & _).
+  destruct (event_du_facts (g_k g) st (g_s g) HA1 Kr) as (R & S1 & E1 & E2 & E3 & _).
+  split.
+  - apply GInv_hup. apply G_src_nil'; auto; rewrite E1; auto.
+  - intros u. assert (T : TInv (set_src g (event_du (g_k g) st (g_s g)) []) u) by (apply T_src_nil'; auto; rewrite E1; auto).
+    revert T. apply TInv_frame; reflexivity.
+Qed.
 
 Lemma step_hangup g t g' acts : Inv g -> gstep g t GHangup = Some (g', acts) -> Inv g'.
 Proof.
@@ -559,7 +566,7 @@ Proof.
   pose proof HG as ((HA1 & _) & _).
   split.
   - apply GInv_hup. apply G_src_nil'; cbn; auto. apply Sinv_hangup; assumption.
-  - intros u. assert (T : TInv (set_src g (with_du (with_pending (g_s g) true) (du_wlh (g_s g)) false true (kreg (g_s g)) false) []) u)
+  - intros u. assert (T : TInv (set_src g (with_du (g_s g) (du_wlh (g_s g)) false true (kreg (g_s g)) false) []) u)
       by (apply T_src_nil'; cbn; auto).
     revert T. apply TInv_frame; reflexivity.
 Qed.
@@ -656,6 +663,7 @@ Proof.
       * intros _. exact C1.
       * intros X. destruct (HC2 X) as [Y1 Y2]. rewrite Y1. exact Y2.
       * intros Pc _. destruct (HC3 Pc) as (_ & _ & _ & Org). destruct (canceled (fl (g_s g))); auto.
+      * intros X. destruct HG as (_ & (_ & _ & _ & _ & _ & HB6) & _). destruct (HB6 X) as [Y _]. congruence.
     + intros u. destruct (Z.eq_dec u t) as [->|Ne].
       * destruct (HT t) as (_ & _ & _ & _ & _ & T6).
         unfold TInv. cbn. rewrite upd_same.
@@ -712,6 +720,7 @@ Proof.
   - cbn. intros _. exact Cc.
   - intros X. destruct (HC2 X). assumption.
   - cbn. intros X Y. destruct (HC3 X) as (_ & _ & _ & Z1). auto.
+  - cbn. intros X. destruct HG as (_ & (_ & _ & _ & _ & _ & HB6) & _). apply HB6. exact X.
 Qed.
 
 Lemma step_caw_step g t lock o g' acts : Inv g -> gstep g t (GCawStep lock o) = Some (g', acts) -> Inv g'.
@@ -803,15 +812,17 @@ Qed.
 
 (* ------------------------------------------------------------------ every reachable state *)
 (* ------------------------------------------------------------------ the hang-up delivery in two halves
-   While the manager is between publishing DU_STATE_NEEDS_DELETE and _dispatch_source_merge_evt's second read of du_state,
-   nobody unregisters the unote: a muxed unote is unregistered on the manager queue only (source.c:788 as fixed, :832), and the
-   manager thread is busy; cancel_and_wait's locked path exists for direct unotes only. *)
+   While the manager is between its update of du_state and _dispatch_source_merge_evt's second read of it, nobody
+   unregisters a muxed unote: it is unregistered on the manager queue only (source.c:788 as fixed, :832) and the manager
+   thread is busy; cancel_and_wait's locked path exists for direct unotes only.  (Timers may be unregistered on the target
+   queue meanwhile; _dispatch_source_merge_evt does not finalize timers.) *)
 Definition HInv (g : gst) : Prop :=
   (m_hup g = true ->
-     registered (g_s g) = true /\ k_direct (g_k g) = false /\ k_timer (g_k g) = false /\
-     match owner g with Some _ => queue_eqb (o_q g) QMgr = false | None => True end) /\
+     match owner g with Some _ => queue_eqb (o_q g) QMgr = false | None => True end /\
+     (k_timer (g_k g) = true \/ (registered (g_s g) = true /\ k_direct (g_k g) = false))) /\
   (in_cd (o_pc g) = true -> k_direct (g_k g) = true) /\
-  (forall t o n, cpc g t = CDecide o n -> deleted o = false -> k_direct (g_k g) = false -> waiter n = true).
+  (forall t o n, cpc g t = CDecide o n -> deleted o = false -> k_direct (g_k g) = false -> waiter n = true) /\
+  (m_hup g = true -> activated g = true).
 
 Lemma HInv_init k ev ca rg : HInv (init_state k ev ca rg).
 Proof. unfold HInv, init_state. cbn. repeat split; intros; discriminate. Qed.
@@ -819,70 +830,91 @@ Proof. unfold HInv, init_state. cbn. repeat split; intros; discriminate. Qed.
 (* steps that keep the kind, the hang-up flag, the lock owner and every cancel_and_wait caller where they are *)
 Lemma H_frame g g' :
   HInv g -> g_k g' = g_k g -> m_hup g' = m_hup g -> owner g' = owner g -> o_q g' = o_q g -> o_pc g' = o_pc g ->
-  (forall u, cpc g' u = cpc g u) -> (m_hup g = true -> registered (g_s g) = true -> registered (g_s g') = true) -> HInv g'.
+  (forall u, cpc g' u = cpc g u) -> (m_hup g = true -> registered (g_s g) = true -> registered (g_s g') = true) ->
+  (activated g = true -> activated g' = true) -> HInv g'.
 Proof.
-  intros (H1 & H2 & H3) Ek Em Eo Eq Ep Ec Er. unfold HInv. rewrite Ek, Em, Eo, Eq, Ep.
-  split; [|split].
-  - intros M. destruct (H1 M) as (R & X). split; [apply Er; assumption | exact X].
+  intros (H1 & H2 & H3 & H4) Ek Em Eo Eq Ep Ec Er Ea. unfold HInv. rewrite Ek, Em, Eo, Eq, Ep.
+  split; [|split; [|split]].
+  - intros M. destruct (H1 M) as (X & [Y|[R Y]]); (split; [exact X|]); [left; exact Y | right; split; [apply Er; assumption | exact Y]].
   - exact H2.
   - intros t o n. rewrite Ec. apply H3.
+  - intros M. auto.
 Qed.
 
-Lemma no_hup_inactive g : Inv g -> HInv g -> activated g = false -> m_hup g = false.
+Lemma kreg_active g : Inv g -> kreg (g_s g) = true -> activated g = true.
 Proof.
-  intros [((HA1 & HA2 & _) & _) _] (H1 & _) Na. destruct (m_hup g) eqn:M; [|reflexivity].
-  destruct (H1 eq_refl) as (R & _). destruct HA1 as (_ & _ & S3 & S4 & _).
-  assert (W : du_wlh (g_s g) = true).
-  { unfold registered in R. destruct (du_wlh (g_s g)); [reflexivity|]. cbn in R. apply S3. apply orb_true_iff in R. exact R. }
-  rewrite (HA2 (S4 W)) in Na. discriminate.
+  intros [((HA1 & HA2 & _) & _) _] Kr. destruct HA1 as (_ & S2 & _ & S4 & _). apply HA2, S4, S2, Kr.
 Qed.
 
-Lemma step_hmerge g t g' acts : Inv g -> HInv g -> gstep g t GHangupMerge = Some (g', acts) -> Inv g' /\ acts = [].
+Lemma step_hmerge g t g' acts : Inv g -> HInv g -> gstep g t GEvMerge = Some (g', acts) -> Inv g' /\ acts = [].
 Proof.
-  intros [HG HT] (H1 & _) H. unfold gstep in H. destruct (m_hup g) eqn:M; [|discriminate].
-  destruct (H1 eq_refl) as (R & _). rewrite R in H. cbn [negb andb] in H. injection H as <- <-.
-  split; [|reflexivity]. split; [apply GInv_hup; exact HG | intros u; apply (TInv_frame g _ u); auto].
+  intros [HG HT] (H1 & _) H. unfold gstep in H. destruct (m_hup g) eqn:M; [|discriminate]. cbv zeta in H.
+  assert (D : negb (registered (with_pending (g_s g) true)) && negb (k_timer (g_k g)) = false).
+  { destruct (H1 eq_refl) as (_ & [Kt|[R _]]); [rewrite Kt; apply andb_false_r|].
+    change (registered (with_pending (g_s g) true)) with (registered (g_s g)). rewrite R. reflexivity. }
+  rewrite D in H. injection H as <- <-. split; [|reflexivity].
+  pose proof HG as ((HA1 & _) & _).
+  split.
+  - apply GInv_hup. apply G_src_nil'; try reflexivity; auto.
+  - intros u. assert (T : TInv (set_src g (with_pending (g_s g) true) []) u) by (apply T_src_nil'; cbn; auto).
+    revert T. apply TInv_frame; reflexivity.
 Qed.
 
 Lemma step_H g t a g' acts : Inv g -> HInv g -> gstep g t a = Some (g', acts) -> HInv g'.
 Proof.
-  intros HI HH H. pose proof HI as [HG HT]. pose proof HH as (H1 & H2 & H3).
+  intros HI HH H. pose proof HI as [HG HT]. pose proof HH as (H1 & H2 & H3 & H4).
+  assert (NoHup : activated g = false -> m_hup g = false).
+  { intros Na. destruct (m_hup g) eqn:M; [|reflexivity]. rewrite (H4 eq_refl) in Na. discriminate. }
   destruct a; unfold gstep in H.
   - (* GActivate *)
     destruct (activated g || released (fl (g_s g))) eqn:E; [discriminate|]. apply orb_false_iff in E as [Na _].
     destruct (activate_src (g_k g) o (g_s g)) as [s1 a] eqn:Ea. injection H as <- _.
-    apply (H_frame g); auto. intros M. rewrite (no_hup_inactive g HI HH Na) in M. discriminate.
+    apply (H_frame g); auto. intros M. rewrite (NoHup Na) in M. discriminate.
   - destruct (released (fl (g_s g))); [discriminate|].
     match type of H with (if ?c then _ else _) = _ => destruct c end; [discriminate|]. injection H as <- _.
     apply (H_frame g); auto.
   - destruct (released (fl (g_s g))); [discriminate|]. injection H as <- _. apply (H_frame g); auto.
   - destruct (released (fl (g_s g))); [discriminate|]. injection H as <- _. apply (H_frame g); auto.
-  - (* GEvent *)
-    destruct (kreg (g_s g) && karm (g_s g) && mgr_free g) eqn:E; [|discriminate].
-    apply andb_true_iff in E as [E _]. apply andb_true_iff in E as [Kr _].
-    destruct HG as ((HA1 & _) & _).
-    destruct (event_src_facts (g_k g) stay_armed (g_s g) HA1 Kr) as (R & _). cbv zeta in H.
-    rewrite R in H. cbn [negb andb] in H. injection H as <- _. apply (H_frame g); auto.
-  - (* GHangup *)
+  - (* GEvent: first half *)
+    destruct (kreg (g_s g) && karm (g_s g) && negb (k_direct (g_k g)) && mgr_free g) eqn:E; [|discriminate].
+    apply andb_true_iff in E as [E Mf]. apply andb_true_iff in E as [E Kd]. apply andb_true_iff in E as [Kr _].
+    apply negb_true_iff in Kd. injection H as <- _.
+    pose proof HG as ((HA1 & _) & _).
+    destruct (event_du_facts (g_k g) stay_armed (g_s g) HA1 Kr) as (R & _).
+    unfold HInv. cbn. split; [|split; [|split]].
+    + intros _. split.
+      * unfold mgr_free in Mf. apply andb_true_iff in Mf as [_ Mf]. destruct (owner g); [apply negb_true_iff in Mf; exact Mf | exact I].
+      * right. split; [exact R | exact Kd].
+    + exact H2.
+    + exact H3.
+    + intros _. apply (kreg_active g HI Kr).
+  - (* GHangup: first half *)
     destruct (kreg (g_s g) && registered (g_s g) && negb (k_timer (g_k g)) && negb (k_direct (g_k g)) && mgr_free g) eqn:E; [|discriminate].
     apply andb_true_iff in E as [E Mf]. apply andb_true_iff in E as [E Kd]. apply andb_true_iff in E as [E Kt].
     apply andb_true_iff in E as [Kr _]. apply negb_true_iff in Kt, Kd. injection H as <- _.
     destruct HG as ((HA1 & _) & _). destruct HA1 as (_ & S2 & _).
-    unfold HInv. cbn. split; [|split].
-    + intros _. split; [unfold registered; cbn; rewrite (S2 Kr); reflexivity|]. split; [exact Kd|]. split; [exact Kt|].
-      unfold mgr_free in Mf. apply andb_true_iff in Mf as [_ Mf]. destruct (owner g); [apply negb_true_iff in Mf; exact Mf | exact I].
+    unfold HInv. cbn. split; [|split; [|split]].
+    + intros _. split.
+      * unfold mgr_free in Mf. apply andb_true_iff in Mf as [_ Mf]. destruct (owner g); [apply negb_true_iff in Mf; exact Mf | exact I].
+      * right. split; [unfold registered; cbn; rewrite (S2 Kr); reflexivity | exact Kd].
     + exact H2.
     + exact H3.
-  - (* GHangupMerge *)
-    destruct (m_hup g) eqn:M; [|discriminate]. destruct (H1 eq_refl) as (R & _). rewrite R in H. cbn [negb andb] in H.
-    injection H as <- _. unfold HInv. cbn. split; [intros X; discriminate | split; assumption].
+    + intros _. apply (kreg_active g HI Kr).
+  - (* GEvMerge: second half *)
+    destruct (m_hup g) eqn:M; [|discriminate]. cbv zeta in H.
+    assert (D : negb (registered (with_pending (g_s g) true)) && negb (k_timer (g_k g)) = false).
+    { destruct (H1 eq_refl) as (_ & [Kt|[R _]]); [rewrite Kt; apply andb_false_r|].
+      change (registered (with_pending (g_s g) true)) with (registered (g_s g)). rewrite R. reflexivity. }
+    rewrite D in H. injection H as <- _.
+    unfold HInv. cbn. split; [intros X; discriminate|]. split; [exact H2|]. split; [exact H3|]. intros X; discriminate.
   - (* GInvoke *)
-    destruct (owner g) eqn:Ow; [discriminate|]. destruct (activated g); [|discriminate]. cbn [andb] in H.
+    destruct (owner g) eqn:Ow; [discriminate|]. destruct (activated g) eqn:Act; [|discriminate]. cbn [andb] in H.
     destruct (negb (queue_eqb q QMgr && m_hup g)) eqn:Q; [|discriminate]. injection H as <- _.
-    unfold HInv. cbn. split; [|split].
-    + intros M. destruct (H1 M) as (R & Kd & Kt & _). rewrite M, andb_true_r in Q. apply negb_true_iff in Q. auto.
+    unfold HInv. cbn. split; [|split; [|split]].
+    + intros M. destruct (H1 M) as (_ & X). split; [|exact X]. rewrite M, andb_true_r in Q. apply negb_true_iff in Q. exact Q.
     + intros X; discriminate.
     + exact H3.
+    + intros _. exact Act.
   - (* GPhase *)
     pose proof (gstep_phase g t o g' acts H) as S. cbv zeta in S.
     set (i0 := mkI (g_s g) (o_pc g) (o_dqf g) (o_retq g) (o_avoid g)) in *. set (p := phase (g_k g) (o_q g) o i0) in *.
@@ -892,38 +924,42 @@ Proof.
       destruct p; injection H as <- _; [reflexivity|]. destruct (cpc g t); reflexivity. }
     pose proof (phase_facts2 (g_k g) (o_q g) o i0) as K. cbv zeta in K. fold p in K. cbn [i_src i_pc i_dqf i0] in K.
     destruct K as (_ & _ & _ & _ & _ & _ & _ & K8 & _).
-    unfold HInv. rewrite Ek, Em, Es, Epc, Eq. split; [|split].
-    + intros M. destruct (H1 M) as (R & Kd & Kt & Oq). rewrite Ow in Oq. split; [|split; [exact Kd|split; [exact Kt|]]].
-      * destruct (registered (res_src p)) eqn:R'; [reflexivity|]. exfalso.
+    unfold HInv. rewrite Ek, Em, Es, Epc, Eq, Eact. split; [|split; [|split]].
+    + intros M. destruct (H1 M) as (Oq & X). rewrite Ow in Oq. split.
+      * rewrite Eow. destruct p; [rewrite Ow; exact Oq | exact I].
+      * destruct X as [Kt|[R Kd]]; [left; exact Kt|].
+        destruct (k_timer (g_k g)) eqn:Kt; [left; reflexivity|]. right. split; [|exact Kd].
+        destruct (registered (res_src p)) eqn:R'; [reflexivity|]. exfalso.
         destruct (phase_unreg (g_k g) (o_q g) o i0 R R') as [X|[X|[X|X]]].
         -- unfold dkq in X. rewrite Kd in X. congruence.
         -- congruence.
         -- congruence.
         -- cbn [i_pc i0] in X. rewrite (H2 X) in Kd. discriminate.
-      * rewrite Eow. destruct p; [rewrite Ow; exact Oq | exact I].
     + intros X. apply H2. apply K8. exact X.
     + intros u o' n Hc. destruct (Z.eq_dec u t) as [->|Ne].
       * destruct Ecpt as [Ec|[_ Ec]]; [rewrite Ec in Hc; apply (H3 t o' n Hc) | rewrite Ec in Hc; discriminate].
       * rewrite (Ecpo u Ne) in Hc. apply (H3 u o' n Hc).
+    + exact H4.
   - (* GCawEnter *)
     destruct (cpc g t) eqn:Ec; try discriminate.
     match type of H with (if ?c then _ else _) = _ => destruct c end; [discriminate|].
     destruct (m_caw_loop (g_k g) (fl (g_s g))) as [f'|] eqn:L; injection H as <- _.
-    + unfold HInv. cbn. split; [exact H1|]. split; [exact H2|].
+    + unfold HInv. cbn. split; [exact H1|]. split; [exact H2|]. split; [|exact H4].
       intros u o' n Hc Dl Kd. destruct (Z.eq_dec u t) as [->|Ne].
       * rewrite upd_same in Hc. injection Hc as <- <-. unfold m_caw_loop in L. destruct (waiter (fl (g_s g))); [discriminate|].
         injection L as <-. cbn. rewrite Dl, Kd. cbn. apply orb_true_r.
       * rewrite upd_other in Hc by exact Ne. apply (H3 u o' n Hc Dl Kd).
-    + unfold HInv. cbn. split; [exact H1|]. split; [exact H2|].
+    + unfold HInv. cbn. split; [exact H1|]. split; [exact H2|]. split; [|exact H4].
       intros u o' n Hc Dl Kd. destruct (Z.eq_dec u t) as [->|Ne].
       * rewrite upd_same in Hc. injection Hc as <- <-. cbn. apply (caw_loop_none _ _ L).
       * rewrite upd_other in Hc by exact Ne. apply (H3 u o' n Hc Dl Kd).
   - (* GCawStep *)
     assert (Cp : forall g1 p, (forall o' n, p <> CDecide o' n) -> g_k g1 = g_k g -> m_hup g1 = m_hup g -> owner g1 = owner g ->
                   o_q g1 = o_q g -> o_pc g1 = o_pc g -> (forall u, cpc g1 u = cpc g u) ->
-                  (m_hup g = true -> registered (g_s g) = true -> registered (g_s g1) = true) -> HInv (set_cpc g1 t p)).
-    { intros g1 p Np Ek Em Eo Eq Ep Ec Er. pose proof (H_frame g g1 HH Ek Em Eo Eq Ep Ec Er) as (X1 & X2 & X3).
-      unfold HInv. cbn. split; [exact X1|]. split; [exact X2|].
+                  (m_hup g = true -> registered (g_s g) = true -> registered (g_s g1) = true) ->
+                  (activated g = true -> activated g1 = true) -> HInv (set_cpc g1 t p)).
+    { intros g1 p Np Ek Em Eo Eq Ep Ec Er Ea. pose proof (H_frame g g1 HH Ek Em Eo Eq Ep Ec Er Ea) as (X1 & X2 & X3 & X4).
+      unfold HInv. cbn. split; [exact X1|]. split; [exact X2|]. split; [|exact X4].
       intros u o' n Hc. destruct (Z.eq_dec u t) as [->|Ne].
       - rewrite upd_same in Hc. contradiction (Np o' n Hc).
       - rewrite upd_other in Hc by exact Ne. apply (X3 u o' n Hc). }
@@ -935,15 +971,16 @@ Proof.
         -- destruct (owner g) eqn:Ow; [discriminate|]. injection H as <- _.
            assert (Kd : k_direct (g_k g) = true).
            { destruct (k_direct (g_k g)) eqn:X; [reflexivity|]. rewrite (H3 t oldf newf Ec Do eq_refl) in Wn. discriminate. }
-           unfold HInv. cbn. split; [|split].
-           ++ intros M. destruct (H1 M) as (R & Kd' & _). congruence.
+           unfold HInv. cbn. split; [|split; [|split]].
+           ++ intros M. destruct (H1 M) as (_ & X). split; [reflexivity | exact X].
            ++ intros _. exact Kd.
            ++ intros u o' n Hc. destruct (Z.eq_dec u t) as [->|Ne]; [rewrite upd_same in Hc; discriminate|].
               rewrite upd_other in Hc by exact Ne. apply (H3 u o' n Hc).
+           ++ intros _. exact Na.
         -- injection H as <- _. apply Cp; auto; discriminate.
       * destruct (canceled (fl (g_s g))); [|discriminate].
         destruct (activate_src (g_k g) o (g_s g)) as [s1 a] eqn:Ea. injection H as <- _.
-        apply Cp; auto; try discriminate. intros M. rewrite (no_hup_inactive g HI HH Na) in M. discriminate.
+        apply Cp; auto; try discriminate. intros M. rewrite (NoHup eq_refl) in M. discriminate.
     + injection H as <- _. apply Cp; auto; discriminate.
     + destruct (deleted d); [injection H as <- _; apply Cp; auto; discriminate|].
       destruct (negb (waiter d)); [|injection H as <- _; apply Cp; auto; discriminate].
@@ -955,8 +992,8 @@ Proof.
   - (* GFutexRet *)
     destruct (cpc g t) eqn:Ec; try discriminate. injection H as <- _.
     assert (X : HInv (set_cpc g t CWLoad)).
-    { pose proof (H_frame g g HH eq_refl eq_refl eq_refl eq_refl eq_refl (fun _ => eq_refl) (fun _ r => r)) as (X1 & X2 & X3).
-      unfold HInv. cbn. split; [exact X1|]. split; [exact X2|]. intros u o' n Hc. destruct (Z.eq_dec u t) as [->|Ne].
+    { pose proof (H_frame g g HH eq_refl eq_refl eq_refl eq_refl eq_refl (fun _ => eq_refl) (fun _ r => r) (fun a => a)) as (X1 & X2 & X3 & X4).
+      unfold HInv. cbn. split; [exact X1|]. split; [exact X2|]. split; [|exact X4]. intros u o' n Hc. destruct (Z.eq_dec u t) as [->|Ne].
       - rewrite upd_same in Hc. discriminate.
       - rewrite upd_other in Hc by exact Ne. apply (X3 u o' n Hc). }
     exact X.
@@ -991,6 +1028,12 @@ Qed.
 Theorem Inv_reach k ev ca rg g : reach k ev ca rg g -> Inv g.
 Proof. intros R. apply (Inv2_reach k ev ca rg g R). Qed.
 
+Theorem event_delivery_never_finalizes k ev ca rg g t g' acts :
+  reach k ev ca rg g -> gstep g t GEvMerge = Some (g', acts) -> acts = [].
+Proof.
+  intros R H. destruct (Inv2_reach k ev ca rg g R) as [HI HH]. exact (proj2 (step_hmerge g t g' acts HI HH H)).
+Qed.
+
 (* ------------------------------------------------------------------ consequences *)
 Lemma activate_acts g o :
   Inv g -> activated g = false ->
@@ -1022,11 +1065,7 @@ Proof.
     match type of H with (if ?c then _ else _) = _ => destruct c end; [discriminate|]. injection H as _ <-. auto.
   - destruct (released (fl (g_s g))); [discriminate|]. injection H as _ <-. auto.
   - destruct (released (fl (g_s g))); [discriminate|]. injection H as _ <-. auto.
-  - destruct (kreg (g_s g) && karm (g_s g) && mgr_free g) eqn:E; [|discriminate].
-    apply andb_true_iff in E as [E _]. apply andb_true_iff in E as [Kr _].
-    destruct HG as ((HA1 & _) & _).
-    destruct (event_src_facts (g_k g) stay_armed (g_s g) HA1 Kr) as (R & _). cbv zeta in H.
-    rewrite R in H. cbn [negb andb] in H. injection H as _ <-. auto.
+  - match type of H with (if ?c then _ else _) = _ => destruct c end; [|discriminate]. injection H as _ <-. auto.
   - match type of H with (if ?c then _ else _) = _ => destruct c end; [|discriminate]. injection H as _ <-. auto.
   - apply Nil. destruct (step_hmerge g t g' acts HI HH H) as [_ X]. exact X.
   - destruct (owner g); [discriminate|]. destruct (activated g); [|discriminate]. cbn [andb] in H.
@@ -1056,17 +1095,22 @@ Section Consequences.
   Variables (k : kind) (ev ca rg : bool).
   Notation R := (reach k ev ca rg).
 
-  (* the cancel handler runs at most once, ever; once its slot has been released it has run exactly once, unless the
-     last reference was dropped on an uncancelled source (then it is disposed of, never called) *)
+  (* the cancel handler runs at most once, ever; once its slot has been released on a cancelled source it has run exactly
+     once, whether or not the last reference has been dropped meanwhile (cancel; release is the client idiom); it is disposed
+     of without a call only on a source whose last reference was dropped and that was never cancelled (and never will be) *)
   Theorem cancel_handler_exactly_once g : R g ->
     0 <= ch_count g <= 1 /\ (h_ca (g_s g) = true -> ch_count g = 0) /\
-    (h_ca (g_s g) = false -> ch_set g = true -> released (fl (g_s g)) = false -> ch_count g = 1) /\
+    (h_ca (g_s g) = false -> ch_set g = true -> canceled (fl (g_s g)) = true -> ch_count g = 1) /\
+    (ch_disposed g = true -> released (fl (g_s g)) = true /\ canceled (fl (g_s g)) = false /\ ch_count g = 0) /\
     (ch_set g = false -> ch_count g = 0).
   Proof.
     intros Hr. destruct (Inv_reach _ _ _ _ _ Hr) as [(_ & HB & _) _].
     destruct HB as (HB1 & HB2 & HB3 & HB4 & HB5 & HB6).
-    split; [exact HB1|]. split; [intros X; apply HB2; exact X|]. split.
-    - intros X Y Z. destruct (HB3 X Y) as [W|W]; [exact W|]. rewrite (HB6 W) in Z. discriminate.
+    split; [exact HB1|]. split; [intros X; apply HB2; exact X|]. split; [|split].
+    - intros X Y Z. destruct (HB3 X Y) as [W|W]; [exact W|]. destruct (HB6 W) as [_ V]. congruence.
+    - intros X. destruct (HB6 X) as [A B]. split; [exact A|]. split; [exact B|].
+      destruct (Z.eq_dec (ch_count g) 0) as [|Ne]; [assumption|]. assert (Y : 1 <= ch_count g) by lia.
+      destruct (HB5 Y) as [C _]. congruence.
     - intros X. apply HB4. exact X.
   Qed.
 
@@ -1194,14 +1238,17 @@ Proof.
     match type of H with (if ?c then _ else _) = _ => destruct c end; [discriminate|]. injection H as <- _. cbn. auto.
   - destruct (released (fl (g_s g))); [discriminate|]. injection H as <- _. cbn. auto.
   - destruct (released (fl (g_s g))); [discriminate|]. injection H as <- _. cbn. auto.
-  - destruct (kreg (g_s g) && karm (g_s g) && mgr_free g) eqn:E; [|discriminate].
-    apply andb_true_iff in E as [E _]. apply andb_true_iff in E as [Kr _].
+  - destruct (kreg (g_s g) && karm (g_s g) && negb (k_direct (g_k g)) && mgr_free g) eqn:E; [|discriminate].
+    apply andb_true_iff in E as [E _]. apply andb_true_iff in E as [E _]. apply andb_true_iff in E as [Kr _].
     destruct HG as ((HA1 & _) & _).
-    destruct (event_src_facts (g_k g) stay_armed (g_s g) HA1 Kr) as (R & _ & E1 & _). cbv zeta in H.
-    rewrite R in H. cbn [negb andb] in H. injection H as <- _. cbn. rewrite E1. auto.
+    destruct (event_du_facts (g_k g) stay_armed (g_s g) HA1 Kr) as (_ & _ & E1 & _).
+    injection H as <- _. cbn. rewrite E1. auto.
   - match type of H with (if ?c then _ else _) = _ => destruct c end; [|discriminate]. injection H as <- _. cbn. auto.
-  - destruct HH as (H1 & _). destruct (m_hup g) eqn:M; [|discriminate]. destruct (H1 eq_refl) as (R & _).
-    rewrite R in H. cbn [negb andb] in H. injection H as <- _. cbn. auto.
+  - destruct HH as (H1 & _). destruct (m_hup g) eqn:M; [|discriminate]. cbv zeta in H.
+    assert (D : negb (registered (with_pending (g_s g) true)) && negb (k_timer (g_k g)) = false).
+    { destruct (H1 eq_refl) as (_ & [Kt|[R _]]); [rewrite Kt; apply andb_false_r|].
+      change (registered (with_pending (g_s g) true)) with (registered (g_s g)). rewrite R. reflexivity. }
+    rewrite D in H. injection H as <- _. cbn. auto.
   - destruct (owner g); [discriminate|]. destruct (activated g); [|discriminate]. cbn [andb] in H.
     match type of H with (if ?c then _ else _) = _ => destruct c end; [|discriminate]. injection H as <- _. cbn. auto.
   - exfalso. apply (Np o). reflexivity.
